@@ -18,6 +18,8 @@ require (
 	github.com/aperturerobotics/protobuf-go-lite v0.12.2 // indirect
 	github.com/aperturerobotics/starpc v0.49.3 // indirect
 	github.com/blang/semver/v4 v4.0.0 // indirect
+	github.com/bwesterb/go-ristretto v1.2.3 // indirect
+	github.com/cloudflare/circl v1.6.3 // indirect
 	github.com/klauspost/compress v1.18.5 // indirect
 	github.com/klauspost/cpuid/v2 v2.2.10 // indirect
 	github.com/libp2p/go-buffer-pool v0.1.0 // indirect
